@@ -440,6 +440,11 @@ def c20_catalogue(quick):
     for how in ('U:', 'H:'):
         out.append(scenario('robots-renamed-crawler-%s' % how[0], [U(1, links=[2, 3]), U(2, disallowed=1), U(3)],
                             dict(robots=1, ua=how + 'foobot/1.0'), N=1, robots=named))
+    # a rule path spelt with the characters themselves (UTF-8 octets in the file) / with percent escapes: the octets of
+    # rule and URL compare equal either way
+    for nm, rule in (('raw', '/caf\u00e9/'), ('escaped', '/caf%C3%A9/'), ('lowercase-escape', '/caf%c3%a9/')):
+        out.append(scenario('robots-non-ascii-rule-' + nm, [U(1, links=[2, 3]), U(2, path='/caf%C3%A9/p2', disallowed=1), U(3)],
+                            dict(robots=1), N=1, robots={'a.test': {'kind': 'rules', 'disallow': [rule]}}))
     # the file is not valid UTF-8 (a Latin-1 byte in a comment): its rules still count
     l1 = {'a.test': {'kind': 'rules', 'encoding': 'latin-1', 'disallow': [], 'extra': '# caf\xe9 du coin\nDisallow: /priv/\n'}}
     out.append(scenario('robots-latin1-comment', [U(1, links=[2, 3]), U(2, disallowed=1), U(3)], dict(robots=1), N=1, robots=l1))
